@@ -43,8 +43,8 @@ type runTarget struct {
 func (t *runTarget) Evaluate(engine runner.Engine) error {
 	proj, label, info := t.target.Project(), t.target.Label(), t.target.info()
 
-	// Copy the current version of the data.
-	t.data = info.Data
+	// Copy the current version of the stamp that dependents compare against.
+	t.data = info.stamp()
 
 	// Evaluate the target's dependencies.
 	depsUpToDate := true
@@ -122,15 +122,19 @@ func (t *runTarget) Evaluate(engine runner.Engine) error {
 		return err
 	}
 
-	// Save the target's metadata.
+	// Save the target's metadata. The stamp handed to dependents covers the stamps of the
+	// dependencies this evaluation was based on, so that a re-evaluation caused by a dependency is
+	// visible to dependents in later builds even if the target's own data is unchanged.
 	t.changed = changed
-	if changed {
-		t.data = data
+	if !changed {
+		data = info.Data
 	}
+	t.data = combineStamps(data, depData)
 	err = proj.saveTargetInfo(label, targetInfo{
 		Doc:          t.target.Doc(),
 		Dependencies: depData,
-		Data:         t.data,
+		Data:         data,
+		Stamp:        t.data,
 	})
 	if err != nil {
 		proj.events.TargetFailed(label, err)
